@@ -321,6 +321,9 @@ m("C09-r5", "C09", "libwallet/src/slate.rs", "\t\tif pub_nonces.len() == 0 {\n\t
 m("C15-r1bo", "C15", "libwallet/src/api_impl/owner.rs", "\tlet key_id = keys::next_available_key(&mut *w, keychain_mask, &parent_key_id)?;\n\n\tlet blind = k.derive_key(amount, &key_id, SwitchCommitmentType::Regular)?;", "\tlet mut path = parent_key_id.to_path();\n\tpath.depth += 1;\n\tpath.path[path.depth as usize - 1] = w.current_child_index(&parent_key_id)?.into();\n\tlet key_id = Identifier::from_path(&path);\n\n\tlet blind = k.derive_key(amount, &key_id, SwitchCommitmentType::Regular)?;", "C15.R1")
 m("C08-r2p", "C08", "libwallet/src/slate_versions/v4_bin.rs", "\t\tif self.coms.is_some() {\n\t\t\tstatus |= 0x01\n\t\t};", "\t\tif self.coms.as_ref().filter(|c| !c.is_empty()).is_some() {\n\t\t\tstatus |= 0x01\n\t\t};", "C08.R2")
 
+m("C05-r8", "C05", "libwallet/src/api_impl/owner.rs", "\t\t\t\t\t&& o.tx_log_entry == Some(id)\n\t\t\t\t\t&& o.status == OutputStatus::Unconfirmed\n", "\t\t\t\t\t&& o.tx_log_entry == Some(id)\n\t\t\t\t\t&& o.status != OutputStatus::Spent\n", "C05.R8")
+m("C06-r10", "C06", "libwallet/src/internal/tx.rs", "\twallet.store_tx(&format!(\"{}\", tx.tx_slate_id.unwrap()), slate.tx_or_err()?)?;\n", "\tif let Err(e) = wallet.store_tx(&format!(\"{}\", tx.tx_slate_id.unwrap()), slate.tx_or_err()?) {\n\t\twarn!(\"Unable to store finalized transaction {}: {}\", slate.id, e);\n\t}\n", "C06.R10")
+
 
 def for_property(prop):
     return [x for x in M if x["property"] == prop]
